@@ -28,6 +28,10 @@ def regex_pool(r, spec, escape=False):
     if len(names) >= 2:
       a, b = r.sample(names, 2)
       pool.append(esc(a) + '|' + esc(b))
+    # a full name written with '.' where the name has '/', '_' or ':' (plain-looking wildcard regex)
+    dotted = re.sub(r'[/_:;]', '.', r.choice(names))
+    if dotted not in pool and not escape:
+      pool.append(dotted)
   pool.append('nomatch_zzz')
   return pool
 
